@@ -80,7 +80,7 @@ func refSelfTest() error {
 		{1.0, 0x3F800000, false}, {0.1, 0x3DCCCCCD, false}, {math.MaxFloat32, 0x7F7FFFFF, false},
 		{math.SmallestNonzeroFloat32, 1, false}, {math.SmallestNonzeroFloat32 / 2, 0, false}, // tie -> even (0)
 		{math.SmallestNonzeroFloat32 * 0.75, 1, false}, {-2.5, 0xC0200000, false},
-		{3.4028235677973366e38, 0, true},   // the rounding midpoint 2^128-2^103 rounds to even = infinity
+		{3.4028235677973366e38, 0, true},           // the rounding midpoint 2^128-2^103 rounds to even = infinity
 		{3.4028235677973362e38, 0x7F7FFFFF, false}, // just below the midpoint
 		{1e39, 0, true}, {16777217, 0x4B800000, false}, {16777219, 0x4B800002, false},
 	}
